@@ -151,8 +151,21 @@ func (t *loopTr) setupRecv() {
 			t.fail(fd, "field name %s clashes with a name used by the generated Lean text", name)
 		}
 		t.kindOf(f.Type(), fd) // fails for a type outside the subset
+		t.rejectSliceField(f)
 		t.vars[f] = name
 		t.fields = append(t.fields, f)
+	}
+}
+
+// rejectSliceField: fields must be integers or arrays of integers (arrays are values); a slice-typed field could share
+// its backing array with another field, a parameter or a local, which the ownership discipline does not track.
+func (t *loopTr) rejectSliceField(f *types.Var) {
+	switch f.Type().Underlying().(type) {
+	case *types.Slice, *types.Pointer, *types.Interface:
+		t.fail(t.fd, "field %s of the receiver has type %s: only integers and arrays of integers are supported (a slice field could alias)", f.Name(), f.Type())
+	}
+	if b, ok := f.Type().Underlying().(*types.Basic); ok && b.Kind() == types.String {
+		return
 	}
 }
 
@@ -323,6 +336,33 @@ func (t *loopTr) multiAssign(s *ast.AssignStmt) []binding {
 			st := t.freshName()
 			bs = append(bs, binding{name: st, kind: k, val: v, checks: t.takeChecks()})
 			vals = append(vals, val{st, k})
+		}
+	}
+	// Go evaluates the index operands of the left-hand sides BEFORE any assignment is made; here they are evaluated when
+	// the assignment is made, which is the same unless an operand mentions a variable this statement assigns
+	assigned := map[types.Object]bool{}
+	for _, l := range s.Lhs {
+		switch l := unparen(l).(type) {
+		case *ast.IndexExpr:
+			if o := t.varOf(l.X); o != nil {
+				assigned[o] = true
+			}
+		default:
+			if o := t.varOf(l); o != nil {
+				assigned[o] = true
+			}
+		}
+	}
+	for _, l := range s.Lhs {
+		if ix, ok := unparen(l).(*ast.IndexExpr); ok {
+			ast.Inspect(ix.Index, func(n ast.Node) bool {
+				if e, ok := n.(ast.Expr); ok {
+					if o := t.varOf(e); o != nil && assigned[o] {
+						t.fail(s, "multiple assignment: the index of %s mentions `%s`, which the same statement assigns (Go evaluates the index first)", t.p.src(ix), o.Name())
+					}
+				}
+				return true
+			})
 		}
 	}
 	for i, l := range s.Lhs {
@@ -646,6 +686,7 @@ func (t *loopTr) setupCtor() {
 			t.fail(fd, "field name %s clashes with a name used by the generated Lean text", name)
 		}
 		t.kindOf(f.Type(), fd)
+		t.rejectSliceField(f)
 		t.vars[f] = name
 		t.fields = append(t.fields, f)
 	}
